@@ -6,8 +6,36 @@ import (
 	"sync"
 	"time"
 
+	"pgregory.net/rapid"
+
 	"github.com/enbility/ship-go/logging"
 )
+
+// the library's log lines at interleaving points of its goroutines
+var slowLogPoints = []string{
+	"incoming connection request from", // ServeHTTP, before the double connection decision
+	"closing existing double connection",
+	"double connection, as the existing connection will be used",
+	"initiating connection to", // before the dial
+	"trying to connect to",
+	"delaying connection to",
+	"SHIP state changed to: 39", // inside setState (error), before the state is reported
+	"SHIP state changed to: 38", // completed
+	"SHIP state changed to: 11", // pending listen
+	"SHIP state changed to: 13", // hello ok
+	"SHIP state changed to: 9",  // ready listen
+}
+
+// genSlowLog draws 0-2 slow-logger rules (most scenarios get none).
+func genSlowLog(t *rapid.T, nodes int) []LogRule {
+	n := rapid.SampledFrom([]int{0, 0, 0, 1, 1, 2}).Draw(t, "nSlowLog")
+	var rs []LogRule
+	for i := 0; i < n; i++ {
+		rs = append(rs, LogRule{Match: rapid.SampledFrom(slowLogPoints).Draw(t, "logPoint"), Ski: rapid.IntRange(-1, nodes-1).Draw(t, "logSki"),
+			Ms: rapid.SampledFrom([]int{30, 150, 400, 900}).Draw(t, "logMs")})
+	}
+	return rs
+}
 
 // A slow application logger as a source of schedules: the library logs through the logger the
 // application installs (logging.SetLogging), at places that are interleaving points of its
